@@ -1,6 +1,27 @@
-(* C04 — Device resolution follows Spec-directory precedence. *)
-From Coq Require Import String List.
-From CDI Require Import Base Cache.
-Example C04_placeholder : scan nil = nil.
-Proof. reflexivity. Qed.
-Print Assumptions C04_placeholder.
+(* C04 — An unresolvable request leaves the OCI spec untouched and names every miss. *)
+From Coq Require Import String Ascii List Bool Arith ZArith.
+From CDI Require Import Base SpecModel Parser Paths Oci Apply Cache CacheProofs InjectSpec InjectProofs.
+Import ListNotations.
+Open Scope string_scope.
+
+Theorem C04_inject_refines_spec : forall host fs o names,
+  unique_names (scan fs) -> inject host (refresh fs) o names = inject_spec host (loaded (scan fs)) o names.
+Proof. exact inject_refines_spec_fs. Qed.
+Print Assumptions C04_inject_refines_spec.
+(* some requested name does not resolve (unknown, malformed, conflict-removed, ... : anything resolve_spec rejects):
+   exactly the misses, in request order with repetitions, an error, and the OCI spec handed in is returned as it was *)
+Theorem C04_inject_unresolved : forall host fl o names,
+  (exists n, In n names /\ resolve_spec fl n = None) ->
+  inject_spec host fl (Some o) names = (filter (unresolvable fl) names, 1, Some o).
+Proof. exact inject_unresolved. Qed.
+Print Assumptions C04_inject_unresolved.
+(* a nil OCI spec is refused with all requested names *)
+Theorem C04_inject_nil : forall host fl names, inject_spec host fl None names = (names, 1, None).
+Proof. exact inject_nil. Qed.
+Print Assumptions C04_inject_nil.
+
+Example C04_example :
+  let fs := [("/etc/cdi", DDir [("a.json", EFile (Some (mkSpec "0.3.0" "v.com/c" [] [mkDevice "d1" [] (mkEdits ["A=1"] [] [] [] None [])] empty_edits)))])] in
+  let o := mkOci ["X=y"] 0%Z 0%Z [] [] empty_hooks [] [] None "" in
+  inject (host_of []) (refresh fs) (Some o) ["nope"; "v.com/c=d1"; ""; "nope"] = (["nope"; ""; "nope"], 1, Some o).
+Proof. vm_compute. reflexivity. Qed.
